@@ -204,3 +204,9 @@ Proof. reflexivity. Qed.
 Lemma pin_skel_CheckRegion : Gen_C10.skel_CheckRegion =
   [Call "Check"; IfE "v2 != nil" [Ret] []; Call "IsPlacementRulesEnabled"; IfE "c.opts.IsPlacementRulesEnabled()" [Call "Check"; IfE "v3 != nil" [Call "OperatorCount"; Call "GetReplicaScheduleLimit"; IfE "v1.OperatorCount(operator.OpReplica) < c.opts.GetReplicaScheduleLimit()" [Ret] []] []] [Call "Check"; IfE "v4 != nil" [Ret] []; Call "Check"; IfE "v5 != nil" [Call "OperatorCount"; Call "GetReplicaScheduleLimit"; IfE "v1.OperatorCount(operator.OpReplica) < c.opts.GetReplicaScheduleLimit()" [Ret] []] []]; IfE "c.mergeChecker != nil" [Call "OperatorCount"; Call "GetMergeScheduleLimit"; IfE "!v6" [] [Call "Check"; IfE "v7 != nil" [Ret] []]] []; Ret].
 Proof. reflexivity. Qed.
+
+(* PersistOptions.CheckLabelProperty: two nested loops, `return true` on the first (entry, label) pair with equal key and value,
+   `false` after both loops = lib/C10_Cluster.check_label_property (existsb over entries of existsb over labels) *)
+Lemma pin_src_CheckLabelProperty : Gen_C10.src_CheckLabelProperty =
+  "{ v1 := o.labelProperty.Load().(LabelPropertyConfig) for _, v2 := range v1[typ] { for _, v3 := range labels { if v3.Key == v2.Key && v3.Value == v2.Value { return true } } } return false }".
+Proof. reflexivity. Qed.
